@@ -341,7 +341,7 @@ def check(ctx):
     ctx.trusted = ["rustc type/borrow checker and MIR construction", "core::slice::from_raw_parts / pointer cast semantics",
                    "C01 (size_of GenericArray<X, L> = L * size_of X) for symbolic sizes"]
     ctx.assumptions = ["usize arithmetic on element counts does not wrap (quantities count elements of existing objects)"]
-    cfgs = ["F0", "F1"] if ctx.tier == "quick" else ["F0", "F1", "F2"]
+    cfgs = ["F0", "F1", "F1N"] if ctx.tier == "quick" else ["F0", "F1", "F1N", "F2", "F0N", "F2N"]
     ctx.need(*cfgs)
     for cfg in cfgs:
         check_views(ctx, cfg)
